@@ -85,7 +85,7 @@ def plan(ctx, meta, progs, targets, modes, items=2, per_prog=None, assigns=False
     return cases, undisturbed
 
 
-def run_cases(ctx, cases, items=2, stateful=False):
+def run_cases(ctx, cases, items=2, stateful=False, consumer=False):
     """runs real + model; yields records"""
     lines = [inject.model_line(p, t, items, k, mode, inject.KINDS[p][3], assigns=stateful) for p, t, k, mode in cases]
     ml = model_runs(ctx, lines)
@@ -94,7 +94,7 @@ def run_cases(ctx, cases, items=2, stateful=False):
     try:
         for i, (prog, t, k, mode) in enumerate(cases):
             t0 = time.time()
-            r = inject.run_case(sess, prog, t, k, mode, items=items, stateful=stateful)
+            r = inject.run_case(sess, prog, t, k, mode, items=items, stateful=stateful, consumer=consumer)
             rec = {'prog': prog, 'target': t, 'k': k, 'mode': mode, 'real': r, 'model': ml[i] if ml else None, 'line': lines[i], 'dt': time.time() - t0}
             recs.append(rec)
     finally:
